@@ -72,7 +72,7 @@ def run(ctx):
     ctx.tlc_must_pass(res, "MC_Hooks_code.cfg")
     cov["states"] += res["distinct"]; cov["transitions"] += res["generated"]
     cov["per_config"]["MC_Hooks_code.cfg"] = {"distinct": res["distinct"], "status": res["status"]}
-    for cfg in ("MC_Hooks_bad_threshold2.cfg", "MC_Hooks_bad_threshold0.cfg", "MC_Hooks_bad_nodrain.cfg"):
+    for cfg in ("MC_Hooks_bad_threshold2.cfg", "MC_Hooks_bad_threshold0.cfg", "MC_Hooks_bad_nodrain.cfg", "MC_Hooks_bad_newstoredrop.cfg"):
         r = ctx.run_tlc("Hooks.tla", cfg, workers=4, timeout=300)
         cov["per_config"][cfg] = {"status": r["status"], "expected": "violation"}
         if r["status"] != "violation":
